@@ -18,6 +18,7 @@ from checks import c11
 LEVEL = "exploration"
 
 BINDING_FAULTS = ["unknown-property", "ill-typed-value", "duplicate-binding", "unknown-attached-type"]
+POINTER_FAULTS = ["pointer-property:string", "pointer-property:number", "pointer-property:list", "pointer-property:unknown-id"]   # on QLabel.buddy
 GROUP_DUP_FAULTS = ["duplicate-in-group:dotted-then-braces", "duplicate-in-group:braces-then-dotted",
                     "duplicate-in-group:within-braces", "duplicate-in-group:dotted-dotted"]
 CALLBACK_FAULTS = ["callback-incompatible-parameter", "callback-surplus-parameter", "callback-unknown-signal",
@@ -68,6 +69,8 @@ def plantable(o, is_root):
         fs += CALLBACK_FAULTS          # every other kind is a QObject: objectNameChanged(QString) exists
     if kind in ("widget", "menu"):
         fs += GROUP_DUP_FAULTS          # every widget has a font
+    if o.cls == "QLabel":
+        fs += POINTER_FAULTS
     if not is_root:
         fs += TYPE_FAULTS
     return fs
@@ -103,6 +106,10 @@ def plant(o, fault):
         name = {"spacer": "orientation", "layout": "spacing", "sep": "separator"}.get(kind, "toolTip")
         val = {"spacer": "Qt.Horizontal", "layout": "9", "sep": "true"}.get(kind, '"dup"')
         b = qml.B(name, val)
+        o.add(b)
+        return b
+    if fault in POINTER_FAULTS:
+        b = qml.B("buddy", {"string": '"edit"', "number": "1", "list": "[]", "unknown-id": "zzNoSuchId"}[fault.split(":")[1]])
         o.add(b)
         return b
     if fault in GROUP_DUP_FAULTS:
@@ -259,6 +266,12 @@ def judge(t, vd, cid, root, plants):
             "faults": [[list(p), f] for p, f in plants]}
     rf = vd.job({"id": cid, "source": src_f, "modes": ["omit"]})
     rr = vd.job({"id": cid + "/ref", "source": src_r, "modes": ["omit"]})
+    if "modes" in rf and rf["modes"]["omit"].get("status") == "panic" and "modes" in rr and rr["modes"]["omit"].get("status") != "panic":
+        # the faulted document brings the library down although its reference translates: no form at all
+        t.inc("pairs")
+        t.violation("no-form:panic-on-the-faulted-document:" + "+".join(sorted({f for _p, f in plants})),
+                    dict(case, panic=rf["modes"]["omit"].get("panic")))
+        return
     for r in (rf, rr):
         if r.get("crashed") or r.get("timeout") or "modes" not in r or \
                 r["modes"]["omit"].get("status") == "panic":
